@@ -150,6 +150,18 @@ class AToCell(Contract):
         g = mm(tr(A), A)
         yield 'nondegenerate_columns', conj(g[0][0] > 0, g[1][1] > 0, g[2][2] > 0)
 
+    def sign_hints(self, A):
+        # Cauchy-Schwarz in closed form: 1 - (ai.aj)^2/(|ai|^2 |aj|^2) = |ai x aj|^2 / (|ai|^2 |aj|^2)
+        Ae = entries(A)
+        cols = [[Ae[r][k] for r in range(3)] for k in range(3)]
+        g = mm(tr(A), A)
+        out = []
+        for i, j in ((1, 2), (0, 2), (0, 1)):
+            u, v = cols[i], cols[j]
+            cr = [u[1] * v[2] - u[2] * v[1], u[2] * v[0] - u[0] * v[2], u[0] * v[1] - u[1] * v[0]]
+            out.append((cr[0] * cr[0] + cr[1] * cr[1] + cr[2] * cr[2]) / (g[i][i] * g[j][j]))
+        return out
+
     def fresh_result(self, site, A):
         na = num_args([A])
         f = native_fn(self.module, 'a_to_cell')
@@ -173,6 +185,15 @@ class CellInvert(Contract):
 
     def result_spec(self, c):
         return cell_invert_spec(c)
+
+    def sqrt_hints(self, c):
+        return cell_sqrt_hints(c)
+
+    def sign_hints(self, c):
+        sa, sb, sg = sind(c[3]), sind(c[4]), sind(c[5])
+        D = gram_D(c)
+        # 1 - cos^2(alpha*) = D / (sin beta sin gamma)^2  etc.
+        return [D / (sb * sb * sg * sg), D / (sa * sa * sg * sg), D / (sa * sa * sb * sb)]
 
     def ensures(self, c, cs):
         a, b, cc = c[0], c[1], c[2]
@@ -235,3 +256,338 @@ class BToCell(Contract):
             yield 'cos_' + nm, Eq(cosd(c[i]), cosd(c0[i]))
             yield 'range_' + nm, conj(c[i] >= 0, c[i] <= 180)
             yield 'returns_' + nm, Eq(c[i], c0[i])
+
+
+# ---------------------------------------------------------------------------
+# C03 -- rotation constructors
+
+ANG = Angle(-7.0, 7.0, special=(0.0, math.pi / 2, math.pi, -math.pi / 2, 2 * math.pi))
+
+
+def rot_clauses(name, M, spec):
+    yield from named_mat_eq(name, M, spec)
+    M = entries(M)
+    UtU = mm(tr(M), M)
+    for i in range(3):
+        for j in range(i, 3):
+            yield 'orthonormal[%d,%d]' % (i, j), Eq(UtU[i][j], 1 if i == j else 0)
+    yield 'det_plus_one', Eq(det3(M), 1)
+
+
+@register(*BOTH)
+class EulerToU(Contract):
+    name = 'euler_to_u'
+    signature = [('phi1', ANG), ('PHI', ANG), ('phi2', ANG)]
+
+    def result_spec(self, p1, P, p2):
+        return NPM.array(mm(Rz(p1), mm(Rx(P), Rz(p2))))
+
+    def ensures(self, p1, P, p2, U):
+        # documented composition Rz(phi1) Rx(PHI) Rz(phi2), orthonormal, det +1        (C03)
+        yield from rot_clauses('is_RzRxRz', U, mm(Rz(p1), mm(Rx(P), Rz(p2))))
+
+
+@register(*BOTH)
+class FormOmegaMat(Contract):
+    name = 'form_omega_mat'
+    signature = [('omega', ANG)]
+
+    def result_spec(self, om):
+        return NPM.array(Rz(om))
+
+    def ensures(self, om, M):
+        yield from rot_clauses('is_Rz', M, Rz(om))
+
+
+@register(*BOTH)
+class FormOmegaMatGeneral(Contract):
+    name = 'form_omega_mat_general'
+    signature = [('omega', ANG), ('chi', ANG), ('wedge', ANG)]
+
+    def result_spec(self, om, chi, wedge):
+        return NPM.array(mm(Rx(chi), mm(Ry(wedge), Rz(om))))
+
+    def ensures(self, om, chi, wedge, M):
+        yield from rot_clauses('is_RxRyRz', M, mm(Rx(chi), mm(Ry(wedge), Rz(om))))
+
+
+@register(*BOTH)
+class DetectTilt(Contract):
+    name = 'detect_tilt'
+    signature = [('tilt_x', ANG), ('tilt_y', ANG), ('tilt_z', ANG)]
+
+    def result_spec(self, tx, ty, tz):
+        return NPM.array(mm(Rx(tx), mm(Ry(ty), Rz(tz))))
+
+    def ensures(self, tx, ty, tz, M):
+        yield from rot_clauses('is_RxRyRz', M, mm(Rx(tx), mm(Ry(ty), Rz(tz))))
+
+
+def quart_spec(w, wx, wy):
+    """P Rz(omega) P' with P = Rx(wx) Ry(wy), omega = w degrees"""
+    P = mm(Rx(wx), Ry(wy))
+    om = w * PI() / 180
+    return mm(P, mm(Rz(om), tr(P)))
+
+
+@register(*BOTH)
+class QuartToOmega(Contract):
+    name = 'quart_to_omega'
+    # w in degrees; the code forms cos/sin of w*pi/360
+    signature = [('w', Angle(-400.0, 400.0, base=(T.Fraction(1, 360), 1), special=(0.0, 90.0, 180.0, -180.0, 360.0))),
+                 ('w_x', ANG), ('w_y', ANG)]
+
+    def result_spec(self, w, wx, wy):
+        return NPM.array(quart_spec(w, wx, wy))
+
+    def ensures(self, w, wx, wy, M):
+        yield from rot_clauses('is_P_Rz_Pt', M, quart_spec(w, wx, wy))
+
+
+def rod_active(r):
+    r1, r2, r3 = r[0], r[1], r[2]
+    r2n = r1 * r1 + r2 * r2 + r3 * r3
+    cross = [[0, -r3, r2], [r3, 0, -r1], [-r2, r1, 0]]
+    out = []
+    for i in range(3):
+        row = []
+        for j in range(3):
+            row.append(((1 - r2n) * (1 if i == j else 0) + 2 * r[i] * r[j] + 2 * cross[i][j]) / (1 + r2n))
+        out.append(row)
+    return out
+
+
+@register(*BOTH)
+class RodToU(Contract):
+    name = 'rod_to_u'
+    signature = [('rodriguez_vector', Vec(3, Real(-5, 5, special=(0.0, 1.0, 1e3, -1e3))))]
+
+    def result_spec(self, r):
+        rr = list(r.flat) if isinstance(r, NPM.SArr) else list(r)
+        return NPM.array(tr(rod_active(rr)))
+
+    def ensures(self, r, U):
+        rr = list(r.flat) if isinstance(r, NPM.SArr) else list(r)
+        # passive sense: transpose of the active right-handed rotation about r by 2*atan|r|   (C03)
+        yield from rot_clauses('is_transposed_axis_angle', U, tr(rod_active(rr)))
+        Ur = mv(U, rr)
+        yield 'axis_is_fixed', vec_eq(Ur, rr)
+        r2n = rr[0] * rr[0] + rr[1] * rr[1] + rr[2] * rr[2]
+        Ue = entries(U)
+        # trace = 1 + 2 cos(angle), cos(2 atan|r|) = (1-|r|^2)/(1+|r|^2)
+        yield 'angle_is_2atan_norm', Eq((Ue[0][0] + Ue[1][1] + Ue[2][2]) * (1 + r2n), (1 + r2n) + 2 * (1 - r2n))
+        # right-handed about r in the active sense: the antisymmetric part of U' is +[r]x * 2/(1+|r|^2)
+        yield 'handedness', Eq((Ue[1][2] - Ue[2][1]) * (1 + r2n), 4 * rr[0])
+
+
+# ---------------------------------------------------------------------------
+# C09 -- omega / eta solvers
+from pyvc.engine import UnitVec3
+
+TWOTH = Angle(math.radians(0.5), math.radians(150.0), base=(T.Fraction(1, 2), 0))
+TILT = Angle(-0.5, 0.5, special=(0.0,))
+SCALE = Real(0.05, 30.0)
+
+
+def vlist(v):
+    return list(v.flat) if isinstance(v, NPM.SArr) else list(v)
+
+
+def diffraction_clauses(i, Om, gs, twoth, om, eta):
+    """the rotated scattering vector (length sin(theta)) meets the diffraction condition"""
+    st = T.sin(twoth / 2)
+    s2, = (T.sin(twoth),)
+    gt = mv(Om, gs)
+    yield 'x_component[i=%d]' % i, Eq(gt[0], -st * st)
+    if eta is not None:
+        yield 'y_component[i=%d]' % i, Eq(gt[1], -s2 * T.sin(eta) / 2)
+        yield 'z_component[i=%d]' % i, Eq(gt[2], s2 * T.cos(eta) / 2)
+    yield 'omega_range[i=%d]' % i, conj(om > -PI(), om <= PI())
+
+
+class _OmegaSolver(Contract):
+    """shared shape: ghost parameters gdir (unit vector) and scale; the real g_w is
+    sin(theta)*gdir in tools (its assertion demands that length) and scale*gdir in laue
+    (which rescales itself)"""
+
+    def theta_ok(self, twoth):
+        return conj(T.sin(twoth / 2) > 0, T.cos(twoth / 2) > 0)
+
+    def g_actual(self, gdir, scale, twoth):
+        gd = vlist(gdir)
+        if self.module == 'tools':
+            f = T.sin(twoth / 2)
+        else:
+            f = scale
+        g = [f * x for x in gd]
+        if symbolic_mode():
+            return NPM.array(g)
+        import numpy as np
+        return np.array(g, float)
+
+    def gs(self, gdir, twoth):
+        return [T.sin(twoth / 2) * x for x in vlist(gdir)]
+
+    def sqrt_hints(self, *args):
+        return [1]
+
+
+def abc_general(gs, wx, wy):
+    r = mm(Rx(wx), Ry(wy))
+    a = gs[0] * r[0][0] + gs[1] * r[0][1]
+    b = gs[0] * r[0][1] - gs[1] * r[0][0]
+    c = -(gs[0] * gs[0] + gs[1] * gs[1] + gs[2] * gs[2]) - gs[2] * r[0][2]
+    return a, b, c
+
+
+@register(*BOTH)
+class FindOmegaGeneral(_OmegaSolver):
+    name = 'find_omega_general'
+    signature = [('gdir', UnitVec3()), ('scale', SCALE), ('twoth', TWOTH), ('w_x', TILT), ('w_y', TILT)]
+
+    def requires(self, gdir, scale, twoth, wx, wy):
+        gd = vlist(gdir)
+        yield 'unit_direction', Eq(gd[0] * gd[0] + gd[1] * gd[1] + gd[2] * gd[2], 1)
+        yield 'scale_positive', scale > 0
+        yield 'theta_in_first_quadrant', self.theta_ok(twoth)
+        a, b, c = abc_general(self.gs(gdir, twoth), wx, wy)
+        yield 'g_not_along_rotation_axis', a * a + b * b > 0
+        d = a * a + b * b - c * c
+        yield 'not_tangent', Not(Eq(d, 0))
+
+    def actuals(self, gdir, scale, twoth, wx, wy):
+        return [self.g_actual(gdir, scale, twoth), twoth, wx, wy]
+
+    def omega_matrix(self, om, wx, wy):
+        return mm(Rx(wx), mm(Ry(wy), Rz(om)))
+
+    def ensures(self, gdir, scale, twoth, wx, wy, res):
+        om, eta = vlist(res[0]), vlist(res[1])
+        gs = self.gs(gdir, twoth)
+        a, b, c = abc_general(gs, wx, wy)
+        d = a * a + b * b - c * c
+        yield 'two_or_none', len(om) in (0, 2) and len(eta) == len(om)
+        yield 'count_two_when_reachable', Implies(d > 0, len(om) == 2)
+        yield 'count_none_when_unreachable', Implies(d < 0, len(om) == 0)
+        for i in range(len(om)):
+            yield from diffraction_clauses(i, self.omega_matrix(om[i], wx, wy), gs, twoth, om[i], eta[i])
+        if len(om) == 2:
+            # the two solutions are distinct
+            yield 'solutions_distinct', Not(And(Eq(T.cos(om[0]), T.cos(om[1])), Eq(T.sin(om[0]), T.sin(om[1]))))
+
+
+@register(*BOTH)
+class FindOmegaQuart(FindOmegaGeneral):
+    name = 'find_omega_quart'
+
+    def omega_matrix(self, om, wx, wy):
+        P = mm(Rx(wx), Ry(wy))
+        return mm(P, mm(Rz(om), tr(P)))
+
+    def requires(self, gdir, scale, twoth, wx, wy):
+        gd = vlist(gdir)
+        yield 'unit_direction', Eq(gd[0] * gd[0] + gd[1] * gd[1] + gd[2] * gd[2], 1)
+        yield 'scale_positive', scale > 0
+        yield 'theta_in_first_quadrant', self.theta_ok(twoth)
+        a, b, c = self.abc(self.gs(gdir, twoth), wx, wy)
+        yield 'g_not_along_rotation_axis', a * a + b * b > 0
+        yield 'not_tangent', Not(Eq(a * a + b * b - c * c, 0))
+
+    def abc(self, gs, wx, wy):
+        nrm = mv(mm(Rx(wx), Ry(wy)), [0, 0, 1])
+        a = gs[0] * (1 - nrm[0] * nrm[0]) - gs[1] * nrm[0] * nrm[1] - gs[2] * nrm[0] * nrm[2]
+        b = gs[2] * nrm[1] - gs[1] * nrm[2]
+        c = -(gs[0] * gs[0] + gs[1] * gs[1] + gs[2] * gs[2]) - gs[0] * nrm[0] * nrm[0] \
+            - gs[1] * nrm[0] * nrm[1] - gs[2] * nrm[0] * nrm[2]
+        return a, b, c
+
+    def ensures(self, gdir, scale, twoth, wx, wy, res):
+        om, eta = vlist(res[0]), vlist(res[1])
+        gs = self.gs(gdir, twoth)
+        a, b, c = self.abc(gs, wx, wy)
+        d = a * a + b * b - c * c
+        yield 'two_or_none', len(om) in (0, 2) and len(eta) == len(om)
+        yield 'count_two_when_reachable', Implies(d > 0, len(om) == 2)
+        yield 'count_none_when_unreachable', Implies(d < 0, len(om) == 0)
+        for i in range(len(om)):
+            yield from diffraction_clauses(i, self.omega_matrix(om[i], wx, wy), gs, twoth, om[i], eta[i])
+        if len(om) == 2:
+            yield 'solutions_distinct', Not(And(Eq(T.cos(om[0]), T.cos(om[1])), Eq(T.sin(om[0]), T.sin(om[1]))))
+
+
+@register(*BOTH)
+class FindOmega(_OmegaSolver):
+    name = 'find_omega'
+    signature = [('gdir', UnitVec3()), ('scale', SCALE), ('twoth', TWOTH)]
+
+    def requires(self, gdir, scale, twoth):
+        gd = vlist(gdir)
+        yield 'unit_direction', Eq(gd[0] * gd[0] + gd[1] * gd[1] + gd[2] * gd[2], 1)
+        yield 'scale_positive', scale > 0
+        yield 'theta_in_first_quadrant', self.theta_ok(twoth)
+        yield 'g_not_along_rotation_axis', gd[0] * gd[0] + gd[1] * gd[1] > 0
+        st = T.sin(twoth / 2)
+        yield 'not_tangent', Not(Eq(gd[0] * gd[0] + gd[1] * gd[1], st * st))
+
+    def actuals(self, gdir, scale, twoth):
+        return [self.g_actual(gdir, scale, twoth), twoth]
+
+    def sqrt_hints(self, gdir, scale, twoth):
+        st = T.sin(twoth / 2)
+        return [1, st, scale, 2 * st]
+
+    def ensures(self, gdir, scale, twoth, res):
+        om = vlist(res)
+        gs = self.gs(gdir, twoth)
+        gd = vlist(gdir)
+        st = T.sin(twoth / 2)
+        reach = gd[0] * gd[0] + gd[1] * gd[1] - st * st
+        yield 'two_or_none', len(om) in (0, 2)
+        yield 'count_two_when_reachable', Implies(reach > 0, len(om) == 2)
+        yield 'count_none_when_unreachable', Implies(reach < 0, len(om) == 0)
+        for i in range(len(om)):
+            yield from diffraction_clauses(i, Rz(om[i]), gs, twoth, om[i], None)
+
+
+@register(*BOTH)
+class FindOmegaWedge(_OmegaSolver):
+    name = 'find_omega_wedge'
+    signature = [('gdir', UnitVec3()), ('scale', SCALE), ('twoth', TWOTH), ('wedge', TILT)]
+
+    def coseta_a(self, gdir, twoth, wedge):
+        gd = vlist(gdir)
+        ct, s2 = T.cos(twoth), T.sin(twoth)
+        cf = ct - 1
+        length = 2 * T.sin(twoth / 2)
+        coseta = (gd[2] * length + T.sin(wedge) * cf) / T.cos(wedge) / s2
+        a = T.cos(wedge) * cf + T.sin(wedge) * s2 * coseta
+        return coseta, a
+
+    def requires(self, gdir, scale, twoth, wedge):
+        gd = vlist(gdir)
+        yield 'unit_direction', Eq(gd[0] * gd[0] + gd[1] * gd[1] + gd[2] * gd[2], 1)
+        yield 'scale_positive', scale > 0
+        yield 'theta_in_first_quadrant', self.theta_ok(twoth)
+        yield 'wedge_small', T.cos(wedge) > 0
+        coseta, a = self.coseta_a(gdir, twoth, wedge)
+        yield 'not_tangent', conj(Not(Eq(coseta, 1)), Not(Eq(coseta, -1)))
+        yield 'a_nonzero', Not(Eq(a, 0))
+
+    def actuals(self, gdir, scale, twoth, wedge):
+        g = self.g_actual(gdir, scale, twoth)
+        return [g, twoth, wedge]
+
+    def sqrt_hints(self, gdir, scale, twoth, wedge):
+        st = T.sin(twoth / 2)
+        return [1, st, scale, 2 * st]
+
+    def ensures(self, gdir, scale, twoth, wedge, res):
+        om, eta = vlist(res[0]), vlist(res[1])
+        gs = self.gs(gdir, twoth)
+        coseta, a = self.coseta_a(gdir, twoth, wedge)
+        yield 'two_or_none', len(om) in (0, 2) and len(eta) == len(om)
+        yield 'count_two_when_reachable', Implies(And(coseta < 1, coseta > -1), len(om) == 2)
+        yield 'count_none_when_unreachable', Implies(Or(coseta > 1, coseta < -1), len(om) == 0)
+        for i in range(len(om)):
+            # GrainSpotter sign of the wedge: Omega = Ry(-wedge) Rz(omega)
+            yield from diffraction_clauses(i, mm(Ry(-wedge), Rz(om[i])), gs, twoth, om[i], eta[i])
